@@ -6,13 +6,16 @@ from props import util
 THEOREMS = ['C01_nodal_balance', 'C01_nodal_balance_eps']
 
 CFG = {'p_coarse': 0.2, 'p_periodic': 0.15, 'T': (3, 8), 'n_assets': (1, 4), 'nodes': (1, 3),
-       'kinds': {'SimpleContract': 1, 'Contract': 1, 'Transport': 3, 'Storage': 2,
-                 'MultiCommodityContract': 3, 'OrderBook': 1, 'ExtendedTransport': 1}}
+       'kinds': {'SimpleContract': 1, 'Contract': 1, 'Transport': 3, 'Storage': 2, 'MultiCommodityContract': 3, 'OrderBook': 3, 'ExtendedTransport': 1, 'ScaledAsset': 3, 'StructuredAsset': 3}}
 
 
 def case_expr(o, prob, mp, x, xr, tab_r, solved, nvar=None):
     """Coq expression for one (problem, mapping) pair"""
     nrows = [(r, b) for r, t, b in zip(prob['rows'], prob['cType'], prob['b']) if t == 'N']
+    # the portfolio's own nodal rows are the last ones (a structured asset brings the nodal rows of its
+    # inner nodes along as ordinary asset rows)
+    k = len(prob.get('map_nodal_restr', []))
+    nrows = nrows[len(nrows) - k:] if k <= len(nrows) else nrows
     impl_rows = C.lst([C.crow(r[0], r[1], 'N', b) for r, b in nrows])
     rec = C.lst(['(%s, %s)' % (C.nat(t), C.s(n)) for t, n in prob.get('map_nodal_restr', [])])
     tab = C.lst(['(%s, %s, %s)' % (C.s(a), C.s(n), C.qvec(v)) for a, n, v in tab_r])
@@ -29,6 +32,7 @@ def run(ctx):
     n = 60 if ctx.tier == 'quick' else 400
     specs = util.corpus(ctx.prop) + gen.gen_many(ctx.seed, n, CFG, 'c01_')
     util.add_split(specs)
+    specs += util.orderbook_tail_specs(ctx.seed, 10 if ctx.tier == 'quick' else 60, 'c01ob_')
     res = C.run_impl('portfolio', specs)
     exprs, owners = [], []
     for sp, o in zip(specs, res):
@@ -71,11 +75,13 @@ def run(ctx):
             # impl rows of the split problem: interval rows shifted by the interval's variable offset
             off = 0
             for p in s['ops']:
-                for r, t, b in zip(p['rows'], p['cType'], p['b']):
-                    if t == 'N':
-                        cat['rows'].append([[j + off for j in r[0]], r[1]])
-                        cat['cType'] += 'N'
-                        cat['b'].append(b)
+                own = [(r, b) for r, t, b in zip(p['rows'], p['cType'], p['b']) if t == 'N']
+                k = len(p.get('map_nodal_restr', []))
+                own = own[len(own) - k:] if k <= len(own) else own
+                for r, b in own:
+                    cat['rows'].append([[j + off for j in r[0]], r[1]])
+                    cat['cType'] += 'N'
+                    cat['b'].append(b)
                 off += len(p['c'])
             tab_s = util.dispatch_table(o, s['out_r']['dispatch'])
             exprs.append(case_expr(o, cat, s['mapping'], s.get('x') or [], s['xr'], tab_s, s.get('solve') == 'optimal'))
